@@ -420,12 +420,59 @@ package writer
 // (ColWip.getLastRecord).  When an event lacks a column, the back-fill record
 // appended for it must be that window: the window starts where the record is
 // appended (not at the previous event's value).
+// (C01/C15: every column value of an event — an explicit null included — takes
+// one record in its column buffer, and every record written, also the back-fill
+// record of a column the event lacks, is entered into the per-column size
+// bookkeeping with exactly the bytes that were appended for it; the reader of a
+// rotated segment walks a column with the recorded fixed width, and the block
+// writer expects one record per event.  Ghosts fillBytes: bytes appended since
+// the last bookkeeping call; fillBooked: bookkeeping calls made for the event's
+// own columns.)
+//@ ghostdecl fillBytes int
+//@ ghostdecl fillBooked int
 //@ func (*SegStore).doLogEventFilling
-//@   props C03
+//@   props C03 C01 C15
 //@   assumecalleerequires
-//@   note under contract for the site assertion only; the preconditions of encodeTime / updateColValueSizeInAllSeenColumns at its calls (well-formed open block, non-nil maps) are assumed here
+//@   note the preconditions of encodeTime / updateColValueSizeInAllSeenColumns at its calls (well-formed open block, non-nil maps) are assumed here
+//@   ghostinit ghost(0, "fillBytes") == 0 && ghost(0, "fillBooked") == 0
+//@   loop 1:
+//@     invariant [one-booked-record-per-column-of-the-event-so-far] ghost(0, "fillBytes") == 0 && ghost(0, "fillBooked") == int(i)
+//@   loop 2:
+//@     invariant [no-record-is-left-without-its-size-bookkeeping] ghost(0, "fillBytes") == 0
+//@   site call colWip.cbuf.Append #1:
+//@     ghostset ghost(0, "fillBytes") = ghost(0, "fillBytes") + len(arg1)
+//@   site call colWip.cbuf.Append #2:
+//@     ghostset ghost(0, "fillBytes") = ghost(0, "fillBytes") + len(arg1)
+//@   site call colWip.cbuf.Append #3:
+//@     ghostset ghost(0, "fillBytes") = ghost(0, "fillBytes") + len(arg1)
+//@   site call colWip.cbuf.Append #4:
+//@     ghostset ghost(0, "fillBytes") = ghost(0, "fillBytes") + len(arg1)
+//@   site call colWip.cbuf.Append #5:
+//@     ghostset ghost(0, "fillBytes") = ghost(0, "fillBytes") + len(arg1)
+//@   site call colWip.cbuf.Append #6:
+//@     ghostset ghost(0, "fillBytes") = ghost(0, "fillBytes") + len(arg1)
 //@   site call colWip.cbuf.Append #7:
 //@     assert [last-record-window-is-the-backfill-record] colWip.cstartidx == colWip.cbufidx
+//@     ghostset ghost(0, "fillBytes") = ghost(0, "fillBytes") + len(arg1)
+//@   site call ss.updateColValueSizeInAllSeenColumns #1:
+//@     assert [booked-with-the-bytes-written-for-the-record] ghost(0, "fillBytes") >= 1 && int(arg2) == ghost(0, "fillBytes")
+//@     ghostset ghost(0, "fillBytes") = 0
+//@     ghostset ghost(0, "fillBooked") = ghost(0, "fillBooked") + 1
+//@   site call ss.updateColValueSizeInAllSeenColumns #2:
+//@     assert [booked-with-the-bytes-written-for-the-record] ghost(0, "fillBytes") >= 1 && int(arg2) == ghost(0, "fillBytes")
+//@     ghostset ghost(0, "fillBytes") = 0
+//@     ghostset ghost(0, "fillBooked") = ghost(0, "fillBooked") + 1
+//@   site call ss.updateColValueSizeInAllSeenColumns #3:
+//@     assert [booked-with-the-bytes-written-for-the-record] ghost(0, "fillBytes") >= 1 && int(arg2) == ghost(0, "fillBytes")
+//@     ghostset ghost(0, "fillBytes") = 0
+//@     ghostset ghost(0, "fillBooked") = ghost(0, "fillBooked") + 1
+//@   site call ss.updateColValueSizeInAllSeenColumns #4:
+//@     assert [booked-with-the-bytes-written-for-the-record] ghost(0, "fillBytes") >= 1 && int(arg2) == ghost(0, "fillBytes")
+//@     ghostset ghost(0, "fillBytes") = 0
+//@     ghostset ghost(0, "fillBooked") = ghost(0, "fillBooked") + 1
+//@   site call ss.updateColValueSizeInAllSeenColumns #5:
+//@     assert [booked-with-the-bytes-written-for-the-record] ghost(0, "fillBytes") >= 1 && int(arg2) == ghost(0, "fillBytes")
+//@     ghostset ghost(0, "fillBytes") = 0
 //@ end
 
 // C01 (late-appearing columns): PackDictEnc writes deCount as the number of
@@ -594,4 +641,56 @@ package writer
 //@     ghostset ghost(0, "convInt") = result
 //@   site call newColWip.WriteSingleString #1:
 //@     assert [an-integer-record-becomes-the-decimal-text-of-its-own-value] arg1 == uf("decText", string, ghost(0, "convInt"))
+//@ end
+
+// Frames used by doLogEventFilling: the dictionary bookkeeping of a column
+// (VERIFIED: it writes the dictionary data behind ColWip.deData only) and the
+// per-column statistics (ASSUMED) do not move the column buffer's write position.
+//@ func (*SegStore).checkAddDictEnc
+//@   props C01 C15
+//@   requires colWip != nil && colWip.deData != nil
+//@   modifies colWip.deData.deCount, mapof(colWip.deData.deMap), elemsof(uint16)
+//@ end
+//@ func addSegStatsStrIngestion
+//@   assumed
+//@   preserves fieldsof(ColWip)
+//@ end
+//@ func addSegStatsBool
+//@   assumed
+//@   preserves fieldsof(ColWip)
+//@ end
+
+// C03 (an answer from stored persistent-query results equals the raw search):
+// the ingest-time evaluator that fills the match bit sets combines the nodes and
+// queries of one condition as the search does: AND = all of them hold, OR and
+// EXCLUSION = at least one of them holds — and for OR / EXCLUSION every one of
+// them is evaluated (no early exit on a term that does not match).  Ghosts
+// pqsEvaluated / pqsAnyTrue over the results of the two evaluators.
+//@ ghostdecl pqsEvaluated int
+//@ ghostdecl pqsAnyTrue int
+//@ func applySearchSingleCondition
+//@   props C03
+//@   requires sCond != nil
+//@   ghostinit ghost(0, "pqsEvaluated") == 0 && ghost(0, "pqsAnyTrue") == 0
+//@   site callret applySearchSingleNode #1:
+//@     ghostset ghost(0, "pqsEvaluated") = ghost(0, "pqsEvaluated") + 1
+//@     ghostset ghost(0, "pqsAnyTrue") = ite(result, 1, ghost(0, "pqsAnyTrue"))
+//@   site callret applySearchSingleQuery #1:
+//@     ghostset ghost(0, "pqsEvaluated") = ghost(0, "pqsEvaluated") + 1
+//@     ghostset ghost(0, "pqsAnyTrue") = ite(result, 1, ghost(0, "pqsAnyTrue"))
+//@   loop 1:
+//@     invariant ghost(0, "pqsEvaluated") == rangeindex + 1 && orMatch == (ghost(0, "pqsAnyTrue") == 1) && rangeindex + 1 <= old(len(sCond.SearchNode)) && len(sCond.SearchNode) == old(len(sCond.SearchNode)) && len(sCond.SearchQueries) == old(len(sCond.SearchQueries))
+//@   loop 2:
+//@     invariant ghost(0, "pqsEvaluated") == old(len(sCond.SearchNode)) + rangeindex + 1 && orMatch == (ghost(0, "pqsAnyTrue") == 1) && rangeindex + 1 <= old(len(sCond.SearchQueries)) && len(sCond.SearchNode) == old(len(sCond.SearchNode)) && len(sCond.SearchQueries) == old(len(sCond.SearchQueries))
+//@   ensures [or-and-exclusion-hold-iff-some-term-holds-and-every-term-was-evaluated] implies(op != sutils.And, result == (ghost(0, "pqsAnyTrue") == 1) && ghost(0, "pqsEvaluated") == old(len(sCond.SearchNode)) + old(len(sCond.SearchQueries)))
+//@ end
+// Frames only (ASSUMED): evaluating a node or a query against the open block
+// does not change the condition being evaluated.
+//@ func applySearchSingleNode
+//@   assumed
+//@   preserves fieldsof(structs.SearchCondition)
+//@ end
+//@ func applySearchSingleQuery
+//@   assumed
+//@   preserves fieldsof(structs.SearchCondition)
 //@ end
